@@ -2293,6 +2293,7 @@ impl<'store> FindTextSelectionsIter<'store> {
                 }
             }
             self.drain_buffer = true;
+            self.sort_buffer();
             None //triggers normal looping behaviour
         } else {
             //------ normal behaviour ----------
@@ -2319,8 +2320,9 @@ impl<'store> FindTextSelectionsIter<'store> {
                         && !self.refset.has_handle(textselection.handle().unwrap())
                     //       ^------ do not include the item itself
                     {
-                        if !self.buffer.is_empty() {
+                        if !self.buffer.is_empty() || self.textseliters.len() > 1 {
                             //we've already used the buffer, so we'll have to keep doing it otherwise results are not in proper order
+                            //(and with multiple iterators, one per text selection in the reference set, a later one may yield the same or earlier items)
                             self.buffer.push_back(textselection.handle().unwrap());
                         } else {
                             return Some(textselection.handle().unwrap());
@@ -2359,7 +2361,21 @@ impl<'store> FindTextSelectionsIter<'store> {
         if self.textseliter_index >= self.textseliters.len() {
             //no more iterators, trigger buffer draining
             self.drain_buffer = true;
+            self.sort_buffer();
         }
+    }
+
+    /// The buffer is filled back to front, by multiple iterators in succession, or in the order of
+    /// the reference set: this puts it in textual order and ensures each text selection is returned only once
+    fn sort_buffer(&mut self) {
+        let resource = self.resource;
+        let mut buffer: Vec<TextSelectionHandle> = std::mem::take(&mut self.buffer).into();
+        buffer.sort_unstable_by_key(|handle| {
+            let textselection: &TextSelection = resource.get(*handle).expect("handle must exist");
+            (textselection.begin(), textselection.end())
+        });
+        buffer.dedup();
+        self.buffer = buffer.into();
     }
 }
 
